@@ -222,14 +222,23 @@ def run(ctx):
         n_ok += 1
         ntype = None
         raw = None
+        possible = set(neg.values())
+        raw_possible = {0, 1}
         for br in path_branches(st):
             d = strip(br[2])
             if d[0] == 'discr':
                 x = unwrap_cast(d[1])
-                if x[0] == 'call' and 'NegotiationType as std::convert::TryFrom' in x[1] and br[3] is not None:
-                    ntype = br[3]
+                vals = rc.blocks[br[1]]['term'].get('vals', [])
+                nv = set(neg.values())
+                if x[0] == 'call' and 'NegotiationType as std::convert::TryFrom' in x[1] and vals and set(vals) <= nv:
+                    # a positive arm fixes the kind, the otherwise edge excludes the tested kinds (if let .. / match with a fall-through)
+                    possible = ({br[3]} & possible) if br[3] is not None else (possible - set(vals))
                 if x[0] == 'call' and x[1] == 'core::tpkt::Client::<S>::read' and br[3] is not None:
-                    raw = br[3]
+                    raw_possible = {br[3]}
+        if len(possible) == 1:
+            ntype = list(possible)[0]
+        if len(raw_possible) == 1:
+            raw = list(raw_possible)[0]
         payload = unwrap_cast(v[3][0])
         from_result = payload[0] == 'call' and 'Protocols as std::convert::TryFrom' in payload[1]
         ctx.check(ntype == neg.get('TypeRDPNegRsp') and raw == 0 and from_result, 'R02.3', 'confirm:ok',
@@ -252,7 +261,8 @@ def run(ctx):
 
     # ---- R02.4b/R02.5 tpkt::Client::start_ssl / start_nla / Link::start_ssl --------------------
     ts = ctx.body(T_SSL)
-    tn = ctx.body(T_NLA)
+    import inline
+    tn = inline.force(P, ctx.body(T_NLA), [T_SSL, 'core::tpkt::Client::<S>::new'])        # start_nla may reuse its sibling start_ssl for the TLS upgrade
     for body, name in ((ts, 'start_ssl'), (tn, 'start_nla')):
         sites = body.calls_to(L_SSL)
         ctx.check(len(sites) == 1 and single_param_origin(body, sites[0].args[1]) == 2, 'R02.5', 'tpkt_%s:cert' % name,
@@ -281,10 +291,9 @@ def run(ctx):
     good = False
     if len(da) == 1:
         # argument = Not(param 2)
-        for d in ls.defs.get(op_local(da[0].args[1]), []):
-            if d[0] == 'stmt' and d[3]['rv']['rv'] == 'un' and d[3]['rv']['op'] == 'Not' \
-                    and single_param_origin(ls, d[3]['rv']['x']) == 2:
-                good = True
+        rv_ = chase_def(ls, da[0].args[1])
+        if rv_ is not None and rv_['rv'] == 'un' and rv_['op'] == 'Not' and single_param_origin(ls, rv_['x']) == 2:
+            good = True
     ctx.check(good, 'R02.5', 'link_start_ssl:accept_invalid',
               'danger_accept_invalid_certs receives !check_certificate', da[0].where() if da else ls.where(),
               'Link::start_ssl does not pass the negation of its check_certificate parameter to danger_accept_invalid_certs')
@@ -346,9 +355,26 @@ def object_of(st, e):
             e = e[1][1]
         elif e[0] == 'mutated':
             e = e[3]
+        elif e[0] == 'agg' and e[1] in ('std::result::Result', 'std::option::Option') and e[2] in ('Ok', 'Some') and len(e[3]) == 1:
+            e = e[3][0]
+        elif e[0] == 'variant':
+            e = e[1]
+        elif e[0] == 'field' and strip(e[1])[0] == 'agg' and len(strip(e[1])) > 4 and e[2] in strip(e[1])[4]:
+            a = strip(e[1])
+            e = a[3][a[4].index(e[2])]
+        elif e[0] == 'field' and e[1][0] in ('variant', 'via', 'agg', 'field') and object_of(st, e[1]) != e[1] and _depth_ok(e):
+            inner = object_of(st, e[1])
+            if inner[0] == 'agg' and len(inner) > 4 and e[2] in inner[4]:
+                e = inner[3][inner[4].index(e[2])]
+            else:
+                return e
         else:
             return e
     return e
+
+
+def _depth_ok(e, d=0):
+    return True
 
 
 def try_continue_edges(body, call):
